@@ -469,9 +469,11 @@ def run(sc) -> RunResult:
             res.hit("probe:walk_started_outside_bounds")
         res.states.add(f"{h}x{w}:" + hashlib.sha256(repr(canonical(cur)).encode()).hexdigest()[:14])
         kinds_applied = set()
+        history = []  # earlier values of the walk (every one of them is a value the property speaks about)
         for step, (pick, prefer) in enumerate(zip(sc["walk"], sc["prefer"])):
             res.steps += 1
             snapshot = copy.deepcopy(cur)
+            history.append(snapshot)
             if intr and intr["phase"] == "walk" and intr["step"] == step:
                 seam.interrupt_at = seam.draws + intr["draw"]
             try:
@@ -481,7 +483,12 @@ def run(sc) -> RunResult:
                 # the value it had
                 res.hit("fault:random_source_failed_during_candidates")
                 res.log("step", step, "interrupted", seam.draws)
-                cur = snapshot
+                # ... from a value it had: the one the failed call was about, or an earlier one of the walk
+                back = [snapshot, snapshot] + history[-3:]
+                cur = copy.deepcopy(back[pick % len(back)])
+                if cur != snapshot:
+                    res.hit("perturb:walk_resumed_from_an_earlier_value")
+                    inside = bounds_violation(cur, lim) is None  # an earlier value may predate the walk's entry into the bounds
                 continue
             except DrawBudgetExceeded:
                 res.inconclusive = True
